@@ -169,7 +169,10 @@ func (list *tSkipList[K, V]) mkNode(key K, val V) (int, *tSkipNode[K, V]) {
 	// See: https://golang.org/src/math/rand/rand.go#L150
 	p := float64(list.random.Int63()) / (1 << 63)
 
-	level := 0
+	// the first level is always taken: p[0] is 1 and p is in [0, 1), except
+	// that float64 rounds the largest values of Int63 up to exactly 1.0,
+	// which must not produce a node without fingers.
+	level := 1
 	for level < list.levels && p < list.p[level] {
 		level++
 	}
